@@ -25,3 +25,11 @@ add("C08", "exploration",
     "distinct = distinct (input sequence, abstract trace shape) pairs; a case is non-trivial when at least one packet was injected.",
     {"quick": ["checked"], "thorough": ["checked", "fast"]},
     {"quick": {"inbound_acks_matched": 1000, "evaluations": 1000}, "thorough": {"inbound_acks_matched": 100000}})
+
+add("C05", "exploration",
+    "bounded-exhaustive enumeration of every interleaving (choice-vector odometer, re-executed from scratch) of operation starts on two handle clones, "
+    "acknowledgement deliveries in any order, held/released and spurious polls, plus long PRNG walks; an executable model maps each operation to the "
+    "packet identifier read off the wire and to the acknowledgement generated for it (unique reason string / user property per ack) and is compared with "
+    "the futures' results at every quiescent point. distinct = distinct abstract trace shapes (per-op kind/acceptance/ack state/result class + wire packet type sequence).",
+    {"quick": ["checked"], "thorough": ["checked", "fast"]},
+    {"quick": {"op_results_matched_to_their_ack": 5000, "op_pending_checked": 5000}, "thorough": {"op_results_matched_to_their_ack": 500000}})
